@@ -15,6 +15,7 @@ import (
 	"os"
 	"os/exec"
 	"path/filepath"
+	"regexp"
 	"sort"
 	"strings"
 
@@ -484,6 +485,10 @@ func runNM(c *harness.Ctx) harness.Result {
 	a := uint64(0x400000 + r.Intn(0x100))
 	for i := 0; i < n; i++ {
 		s := sym{name: fmt.Sprintf("s%d", i), typ: []string{"T", "t", "T", "D", "b", "R", "W"}[r.Intn(7)], addr: a, size: uint64(r.Intn(0x40))}
+		if r.Intn(5) == 0 {
+			// a mangled template instantiation: the name alone is longer than common line buffers
+			s.name += "_" + strings.Repeat("x", []int{4000, 4090, 4096, 5000, 20000, 70000}[r.Intn(6)])
+		}
 		syms = append(syms, s)
 		switch r.Intn(4) {
 		case 0: // duplicate address
@@ -499,6 +504,7 @@ func runNM(c *harness.Ctx) harness.Result {
 		fmt.Fprintf(&tb, "%s %s %016x %016x\n", s.name, s.typ, s.addr, s.size)
 	}
 	tb.WriteString("undefined_sym U\n")
+	short := regexp.MustCompile(`x{60,}`).ReplaceAllStringFunc(tb.String(), func(m string) string { return fmt.Sprintf("x..(%d)", len(m)) })
 	tools := filepath.Join(c.Tmp, "tools")
 	os.MkdirAll(tools, 0o755)
 	table := filepath.Join(c.Tmp, "table.txt")
@@ -512,7 +518,7 @@ func runNM(c *harness.Ctx) harness.Result {
 		return harness.Violation("Open failed: %v", err)
 	}
 	defer f.Close()
-	res := harness.Result{NonTrivial: n > 0, Sig: tb.String(), Sample: map[string]any{"nm_table": tb.String()}}
+	res := harness.Result{NonTrivial: n > 0, Sig: short, Sample: map[string]any{"nm_table": short}}
 	isData := func(t string) bool { return strings.ContainsAny(t, "bBdDrRvVW") }
 	var probes []uint64
 	for _, s := range syms {
@@ -526,7 +532,7 @@ func runNM(c *harness.Ctx) harness.Result {
 		fr, err := f.SourceLine(p)
 		c.Stat("lookups", 1)
 		if err != nil {
-			return harness.Violation("SourceLine(%#x) via nm failed: %v\n%s", p, err, tb.String())
+			return harness.Violation("SourceLine(%#x) via nm failed: %v\n%s", p, err, short)
 		}
 		got := ""
 		if len(fr) > 0 {
@@ -582,7 +588,8 @@ func runNM(c *harness.Ctx) harness.Result {
 			}
 			sort.Strings(adm)
 			res.Verdict = harness.Violated
-			res.Detail = fmt.Sprintf("nm lookup of %#x returned %q; admissible (greatest start <= address, data symbols only within their size, nothing outside the table): %v\ntable (name type addr size):\n%s", p, got, adm, tb.String())
+			res.Detail = fmt.Sprintf("nm lookup of %#x returned %q; admissible (greatest start <= address, data symbols only within their size, nothing outside the table): %v\ntable (name type addr size):\n%s", p, regexp.MustCompile(`x{60,}`).ReplaceAllString(got, "x.."), adm, short)
+			res.Detail = regexp.MustCompile(`x{60,}`).ReplaceAllString(res.Detail, "x..")
 			return res
 		}
 	}
